@@ -60,6 +60,15 @@ fn dispatch(name: &str, ctx: &Ctx) -> Option<Report> {
     })
 }
 
+fn fd_soft_limit() -> u64 {
+    let mut lim = libc::rlimit { rlim_cur: 0, rlim_max: 0 };
+    if unsafe { libc::getrlimit(libc::RLIMIT_NOFILE, &mut lim) } == 0 {
+        lim.rlim_cur as u64
+    } else {
+        1024
+    }
+}
+
 fn main() {
     let args: Vec<String> = std::env::args().collect();
     if args.len() < 2 {
@@ -130,6 +139,15 @@ fn main() {
         Tier::Quick => 75,
         Tier::Thorough => 900,
     }));
+    // File descriptors bound how many cells (worker + peers) can run at once: raise the soft limit
+    // to the hard one and, on a small limit, run fewer cells rather than exhaust descriptors (an
+    // accept() failing with EMFILE inside sozu would look like a deaf listener).
+    lab::raise_fd_limit();
+    let fd_limit = fd_soft_limit();
+    if fd_limit < 8_192 {
+        threads = threads.min(((fd_limit / 256) as usize).max(4));
+    }
+    opts.entry("fd_limit".to_owned()).or_insert_with(|| fd_limit.to_string());
     let ctx = Ctx {
         prop,
         tier,
